@@ -335,7 +335,7 @@ def finding_for(ctx, sig, config):
 
 def run(ctx):
     t0 = time.time()
-    ctx.lean_stage(["emph_chars", "entities"], ["Verif.Props.C01", "Verif.Props.BqCount", "Verif.Props.LinkRecog", "Verif.Props.InlineRecog", "Verif.Props.Emphasis", "Verif.Props.InlineLoop", "Verif.Props.InlineLoop2", "Verif.Props.ListStarts", "Verif.Props.ListStarts2", "Verif.Props.LeafBlocks2"])
+    ctx.lean_stage(["emph_chars", "entities"], ["Verif.Props.C01", "Verif.Props.BqCount", "Verif.Props.LinkRecog", "Verif.Props.InlineRecog", "Verif.Props.Emphasis", "Verif.Props.InlineLoop", "Verif.Props.InlineLoop2", "Verif.Props.ListStarts", "Verif.Props.ListStarts2", "Verif.Props.LeafBlocks2", "Verif.Props.LeafBlocks2b"])
     import blocks
     blocks.linkrecog(ctx)      # link_recognisers_total, lrd_total: no IndexError / assert, indices in range, progress
     blocks.inlinerecog(ctx)    # inline_recognisers_total_partial, tag scanners, fuel sufficiency
